@@ -25,6 +25,7 @@ func VH_C12_updown_sched() {
 	}
 	base := run()
 	vNumCPU(1 + vChoice("ncpu", vParam("NCPU")+1))
+	vRaceDetect()
 	vSchedExplore(vParam("DEV"))
 	vAssert("C12.updown.output-independent-of-schedule", run() == base)
 }
